@@ -8,8 +8,6 @@ All theorems quantify over *every* operation history `ops : List Op`
 (no bound on length, identifiers or in-flight count).
 -/
 import Mqtt.Proofs.AckQueue
-import Mqtt.Proofs.XlateAckqGrow
-import Mqtt.Proofs.XlateAckqOps
 
 set_option linter.unusedSimpArgs false
 
@@ -462,119 +460,7 @@ example : (run init demoPings).2.drop 7 =
     (run init demoPings).1.pings = [] := by
   decide +kernel
 
-/-! ## Tie to the Go source: the methods of `Ackqueue` are the regenerated translation
-
-`Mqtt.Generated.Xlate.Sessions.Ackqueue.*` / `Sessions.newAckqueue` are produced
-from `sessions/ackqueue.go` by `extract/cmd/xlate` on every check
-(NOTES-xlate.md).  The translation keeps `int64` fields as `Int`, packet types
-and identifiers as `UInt8`/`UInt16`, and the scratch slice `ackdone`;
-`XlateAckq.absQ` forgets that, `XlateAckq.GWf aq` says the integers are not
-negative.  `message.Message` is a record of observations (`Type_`, `PacketID`,
-`Len`, `Encode`, `QoS`, `Dup`, `dyn`); `encOf` / `waitMsgOf` are what the model
-is told about it.  Common hypotheses: `GWf aq`, the model's invariant on
-`absQ aq`, and `aq.size ≤ 2^61` (signed overflow is not represented; `grow`
-itself panics above 2^62). -/
-
-section Source
-open Mqtt.Generated.Xlate Mqtt.Proofs.XlateAckq
-
-/-- `full`, `empty`, `len`, `cap`, `index`, `increment` -/
-theorem C13_helpers_are_source (aq : Sessions.Ackqueue) (hw : GWf aq) (hi : Inv (absQ aq)) (hs : aq.size ≤ 2 ^ 61)
-    (n : Int) (hn : 0 ≤ n ∧ n < 2 ^ 63 - 1) :
-    Sessions.Ackqueue.full aq = (absQ aq).full ∧ Sessions.Ackqueue.empty aq = (absQ aq).empty ∧
-    Sessions.Ackqueue.len aq = (((absQ aq).count : Nat) : Int) ∧
-    Sessions.Ackqueue.cap aq = (((absQ aq).size : Nat) : Int) ∧
-    Sessions.Ackqueue.index aq n = (((absQ aq).index n.toNat : Nat) : Int) ∧
-    Sessions.Ackqueue.increment aq n = (((absQ aq).increment n.toNat : Nat) : Int) :=
-  ⟨full_is_source aq hw, empty_is_source aq hw, len_is_source aq hw, cap_is_source aq hw,
-   index_is_source aq hw hi hs n ⟨hn.1, by omega⟩, increment_is_source aq hw hi hs n hn⟩
-
-/-- `newAckqueue(n)` for 0 < n ≤ 2^62 (the library calls it with `defaultQueueSize`) -/
-theorem C13_newAckqueue_is_source (n : Int) (hn : 0 < n ∧ n ≤ 2 ^ 62) :
-    ∃ aq, Sessions.newAckqueue n = .ok aq ∧ absQ aq = newAckqueue n.toNat ∧ GWf aq :=
-  newAckqueue_is_source n hn
-
-/-- `grow`: never panics below 2^61 entries, and is the model's `grow` (for every queue, full or not) -/
-theorem C13_grow_is_source (aq : Sessions.Ackqueue) (hw : GWf aq) (hi : Inv (absQ aq)) (hs : aq.size ≤ 2 ^ 61) :
-    ∃ aq', Sessions.Ackqueue.grow aq = .ok aq' ∧ absQ aq' = (absQ aq).grow ∧ GWf aq' ∧ aq'.ackdone = aq.ackdone :=
-  grow_is_source aq hw hi hs
-
-theorem C13_removeHead_is_source (aq : Sessions.Ackqueue) (hw : GWf aq) (hi : Inv (absQ aq)) (hs : aq.size ≤ 2 ^ 61) :
-    ∃ aq', Sessions.Ackqueue.removeHead aq
-        = .ok (aq', if (absQ aq).empty then Err.var "errQueueEmpty" else Err.nil) ∧
-      absQ aq' = (absQ aq).removeHead ∧ GWf aq' ∧ aq'.ackdone = aq.ackdone :=
-  removeHead_is_source aq hw hi hs
-
-/-- `insert`.  `hid`: the Go code keys the map by the parameter but stores `msg.PacketID()` in the
-entry; the model uses the parameter for both; every call site passes `msg.PacketID()`.  `hlen`:
-`make([]byte, msg.Len())` panics for a negative length (`XlateAckq.insert_panics_negative_len`); the
-model has no such outcome.  The returned error (`insertErr`) is ignored by `Wait`. -/
-theorem C13_insert_is_source (aq : Sessions.Ackqueue) (pktid : UInt16) (msg : Message.Message) (tag : Nat)
-    (hw : GWf aq) (hi : Inv (absQ aq)) (hs : aq.size ≤ 2 ^ 61) (hid : msg.PacketID = pktid) (hlen : 0 ≤ msg.Len) :
-    ∃ aq', Sessions.Ackqueue.insert aq pktid msg tag
-        = .ok (aq', insertErr (emapGet (if (absQ aq).full then (absQ aq).grow else absQ aq).emap pktid.toNat).isSome msg) ∧
-      absQ aq' = (absQ aq).insert msg.Type_.toNat pktid.toNat (encOf msg) tag ∧ GWf aq' ∧ aq'.ackdone = aq.ackdone :=
-  insert_is_source grow_is_source aq pktid msg tag hw hi hs hid hlen
-
-/-- `Wait`, all five branches.  `_partial`: `DynTyped msg` — the Go code stores `msg.Type()` as the
-entry's type, the model the dynamic type of the message; they agree for every message made by
-`New…Message()` or `Decode`, and differ for a `*PublishMessage` whose type nibble was overwritten
-through the exported `SetType` (`XlateAckq.Wait_differs_untyped`; reproduced on the real code:
-the entry is released with `Mtype = 8`). -/
-theorem C13_Wait_is_source_partial (aq : Sessions.Ackqueue) (msg : Message.Message) (tag : Nat)
-    (hw : GWf aq) (hi : Inv (absQ aq)) (hs : aq.size ≤ 2 ^ 61) (hty : DynTyped msg) (hlen : 0 ≤ msg.Len) :
-    ∃ aq' e, Sessions.Ackqueue.Wait aq msg tag = .ok (aq', e) ∧
-      absQ aq' = ((absQ aq).wait (waitMsgOf msg) tag).1 ∧
-      (e = Err.nil ↔ ((absQ aq).wait (waitMsgOf msg) tag).2 = true) ∧
-      (e = Err.nil ∨ e = Err.var "errWaitMessage") ∧ GWf aq' ∧ aq'.ackdone = aq.ackdone :=
-  Wait_is_source grow_is_source aq msg tag hw hi hs hty hlen
-
-/-- the PINGREQ branch of `Wait` needs no hypothesis: the request joins the ping FIFO -/
-theorem C13_Wait_ping_is_source (aq : Sessions.Ackqueue) (msg : Message.Message) (tag : Nat)
-    (hd : msg.dyn = "*message.PingreqMessage") :
-    ∃ aq', Sessions.Ackqueue.Wait aq msg tag = .ok (aq', Err.nil) ∧
-      absQ aq' = ((absQ aq).wait (waitMsgOf msg) tag).1 ∧ ((absQ aq).wait (waitMsgOf msg) tag).2 = true ∧
-      (GWf aq → GWf aq') ∧ aq'.ackdone = aq.ackdone :=
-  Wait_ping_is_source aq msg tag hd
-
-/-- `Ack` for the identifier-keyed acknowledgements.  `_partial`: the queue after the call is the
-model's for every message; the *result* is the model's (`true`) only when `msg.Encode` succeeds — the
-Go code returns the encoder's error when the identifier is known, the model takes the encoded bytes
-as given (`XlateAckq.Ack_flag_differs_on_encode_error`). -/
-theorem C13_Ack_is_source_partial (aq : Sessions.Ackqueue) (msg : Message.Message)
-    (hw : GWf aq) (hi : Inv (absQ aq)) (ht : ackIdTypes.contains msg.Type_.toNat = true) (hlen : 0 ≤ msg.Len) :
-    ∃ aq', Sessions.Ackqueue.Ack aq msg
-        = .ok (aq', ackIdErr (emapGet (absQ aq).emap msg.PacketID.toNat).isSome msg) ∧
-      absQ aq' = ((absQ aq).ack msg.Type_.toNat msg.PacketID.toNat (msg.Encode (List.replicate msg.Len.toNat 0)).1).1 ∧
-      ((absQ aq).ack msg.Type_.toNat msg.PacketID.toNat (msg.Encode (List.replicate msg.Len.toNat 0)).1).2 = true ∧
-      ((msg.Encode (List.replicate msg.Len.toNat 0)).2.2 = Err.nil →
-        ackIdErr (emapGet (absQ aq).emap msg.PacketID.toNat).isSome msg = Err.nil) ∧
-      GWf aq' ∧ aq'.ackdone = aq.ackdone :=
-  Ack_id_is_source_partial aq msg hw hi ht hlen
-
-/-- `Ack` for PINGRESP (the oldest ping without an answer takes it) and for every other type (refused) -/
-theorem C13_Ack_ping_is_source (aq : Sessions.Ackqueue) (msg : Message.Message) (id : Nat) (ht : msg.Type_ = (13 : UInt8)) :
-    ∃ aq', Sessions.Ackqueue.Ack aq msg = .ok (aq', Err.nil) ∧
-      absQ aq' = ((absQ aq).ack msg.Type_.toNat id (msg.Encode (List.replicate 2 0)).1).1 ∧
-      ((absQ aq).ack msg.Type_.toNat id (msg.Encode (List.replicate 2 0)).1).2 = true ∧
-      (GWf aq → GWf aq') ∧ aq'.ackdone = aq.ackdone :=
-  Ack_ping_is_source aq msg id ht
-
-theorem C13_Ack_other_is_source (aq : Sessions.Ackqueue) (msg : Message.Message) (id : Nat) (bytes : List UInt8)
-    (h1 : ackIdTypes.contains msg.Type_.toNat = false) (h2 : msg.Type_ ≠ (13 : UInt8)) :
-    Sessions.Ackqueue.Ack aq msg = .ok (aq, Err.var "errAckMessage") ∧
-      (absQ aq).ack msg.Type_.toNat id bytes = (absQ aq, false) :=
-  Ack_other_is_source aq msg id bytes h1 h2
-
-/-- `Acked`: both loops end within the budget `max(len(pings), count) + 1`, the queue afterwards and
-the released entries are the model's -/
-theorem C13_Acked_is_source (fuel : Nat) (aq : Sessions.Ackqueue)
-    (hw : GWf aq) (hi : Inv (absQ aq)) (hs : aq.size ≤ 2 ^ 61)
-    (hf1 : aq.pings.length < fuel) (hf2 : (absQ aq).count < fuel) :
-    ∃ aq' l, Sessions.Ackqueue.Acked fuel aq = .ok (aq', l) ∧
-      absQ aq' = ((absQ aq).acked).1 ∧ l.map absMsg = ((absQ aq).acked).2 ∧ GWf aq' ∧ aq'.ackdone = l :=
-  Acked_is_source removeHead_is_source fuel aq hw hi hs hf1 hf2
-
-end Source
+/-! The tie to the Go source (the theorems `C13_…_is_source…` over the regenerated translation
+`Mqtt.Generated.Xlate`) is in `Properties/C13Source.lean`, which nothing imports. -/
 
 end Mqtt.Properties.C13
